@@ -18,12 +18,15 @@ KEYS = ['x', 'X-y_1', 'Length', 'ENCODING', 'lengthx', 'xlength',
         'typ', 'mime-type', 'le', 'encodin', 'length-', 'a']
 VALUES = ['v', '5', '-3', 'a/b', '1.0', 'utf-16', 'dos', '0', '-0', '007',
           'json', 'binary', '/x', '-', '9999999999999999999999', 'unix',
-          'text/plain']
+          'text/plain', '1_0', '2024_01_15', '-4_2', '1e5', '1.2.3', '0x10',
+          'inf', 'nan', '00', '-', '--5', '5-', '1.', '.5', 'True', 'None',
+          'change', '9' * 5000, 'v' * 70000]
 INT = re.compile(r'-?[0-9]+')
 
 
 def conv(v):
-    return int(v) if INT.fullmatch(v) else v
+    # CPython refuses to convert more than 4300 digits: verbatim then
+    return int(v) if INT.fullmatch(v) and len(v) <= 4300 else v
 
 
 def files():
